@@ -368,7 +368,7 @@ theorem decode_tr : (t : Ty) → ∀ (path : Path) (sel : Option Int) (s : St) (
     split
     · split
       · exact TRB.error k _ _
-      · exact TRB.crash k _ _ _
+      · exact TRB.error k _ _
     · exact arm_tr arms name _ path _ k
   | .bad r, path, sel, s, k => by simp only [decode]; exact TRB.crash k s _ _
 
